@@ -149,7 +149,10 @@ def run_property(modname: str, tier: str, seed: int, update_ledger: bool = False
     conc_results: list[dict[str, Any]] = []
     if need and conc is not None:
         conc_results = conc(tier, seed, refuted, undecided, known) or []
-    rdir = ROOT / "replays" / prop
+    # PYVC_OUT: where replays and evidence go (seed/mutant harnesses point it at a scratch directory so that a run
+    # against a deliberately broken tree never overwrites the evidence of the real tree)
+    out_root = Path(os.environ.get("PYVC_OUT") or ROOT)
+    rdir = out_root / "replays" / prop
     if refuted or conc_results:
         rdir.mkdir(parents=True, exist_ok=True)
     used_conc = set()
@@ -266,8 +269,8 @@ def run_property(modname: str, tier: str, seed: int, update_ledger: bool = False
         "wall_s": round(time.time() - t0, 2),
         "violations": len(violations),
     }
-    evdir = ROOT / "evidence"
-    evdir.mkdir(exist_ok=True)
+    evdir = out_root / "evidence"
+    evdir.mkdir(parents=True, exist_ok=True)
     (evdir / f"{prop}.json").write_text(json.dumps(ev, indent=1, default=str) + "\n")
 
     # ---- print
